@@ -148,6 +148,14 @@ structure St where
   resolvedAtStart : List String := []
   /-- a START found StateDefault, not pending close, commit set already logged -/
   f2Window : Bool := false
+  /-- chain height and nursery store as last printed by the implementation (monitor side) -/
+  envHeight : Nat := 0
+  prevNursery : List (Nat × NStage) := []
+  nurseryAtStart : List (Nat × NStage) := []
+  /-- labels whose crib entry was moved to kindergarten by THIS incarnation under a class height
+      that was not in the future any more (`CribToKinder` has no late-registration rule), and that
+      had no kindergarten entry when the incarnation started -/
+  lateCrib : List String := []
   caseFails : Nat := 0
   sawWrite : Bool := false
   -- crash-free outcomes per scenario
@@ -311,6 +319,7 @@ def parseNursery (ws : List String) : Option (List (Nat × NStage)) :=
         | some k =>
           if st == "pscl" then some (k, NStage.preschool)
           else if st == "grad" then some (k, NStage.graduated)
+          else if st == "crib" then some (k, NStage.crib)
           else if st.startsWith "kndr@" then (dropN st 5).toNat?.map fun c => (k, NStage.kinder c)
           else none
       | _ => none
@@ -446,6 +455,7 @@ def compareFinal (s : St) (b f : Final) : IO St := do
         let cause :=
           if skippedByChainTrigger s l then "chaintrigger_restart"
           else if s.overwritten.contains l && r.kind == .oc then "reexec_overwrite"
+          else if s.lateCrib.contains l && r.kind == .to && r.incub then "crib_late_kinder"
           else "none"
         s ← monitor s "same_outcome" s!"stuck:{l}" s!"uninterrupted run ends fully resolved; this run stays in state {f.last}, resolver {l} never resolves" cause
   else if b.closed != f.closed || b.last != f.last then
@@ -587,7 +597,8 @@ def step (s : St) (line : String) : IO St := do
                       deleted := [], causes := [], caseFails := 0, sawWrite := false,
                       epochNo := 0, epochStartSt := 0, ccEpoch := none, ccDeleted := [], ccPresent := [],
                       touchedSinceCC := [], overwritten := [], resolvedAtStart := [],
-                      f2Window := false }
+                      f2Window := false, envHeight := (kvNat? rest "h0").getD 0, prevNursery := [],
+                      nurseryAtStart := [], lateCrib := [] }
     if s.samples < 4 && crashed then
       IO.println s!"SAMPLE {line}"
       return { s with samples := s.samples + 1 }
@@ -620,7 +631,7 @@ def step (s : St) (line : String) : IO St := do
     let pending := kv? rest "pending" == some "true"
     -- monitor: stop windows, from the implementation's own durable state
     let mut s := s
-    s := { s with epochNo := ep, epochStartSt := stc }
+    s := { s with epochNo := ep, epochStartSt := stc, nurseryAtStart := s.prevNursery, lateCrib := [] }
     if ep > 1 then
       if stc == 2 && !none_ then
         s := { s with ccEpoch := some ep, ccDeleted := s.deleted, touchedSinceCC := [],
@@ -655,6 +666,7 @@ def step (s : St) (line : String) : IO St := do
         s ← mismatch s s!"pending close: model={s.sys.chan.pendingClose} impl={pending}"
       return norm s
   | "ENV" :: "height" :: h :: _ =>
+    let s := { s with envHeight := max s.envHeight (h.toNat?.getD 0) }
     return norm { s with sys := { s.sys with facts := s.sys.facts.add (.height (h.toNat?.getD 0)) } }
   | "ENV" :: "closeconfirmed" :: _ =>
     return norm { s with sys := { s.sys with facts := s.sys.facts.add .close } }
@@ -681,6 +693,19 @@ def step (s : St) (line : String) : IO St := do
   | "K" :: _ => return bump s "effect_stop_points"
   | "U" :: rest =>
     let s := bump { s with evaluations := s.evaluations + 1 } "nursery_store_writes"
+    -- monitor side: a crib -> kindergarten move filed under a height that is already past
+    let s := match parseNursery rest with
+      | some now =>
+        let late := now.filterMap fun (k, st) =>
+          match st with
+          | .kinder c =>
+            if c ≤ s.envHeight && s.prevNursery.contains (k, .crib) && !now.contains (k, .crib) &&
+               !(s.nurseryAtStart.any fun p => p.1 == k && (match p.2 with | .kinder _ => true | _ => false))
+            then some s!"h{k}" else none
+          | _ => none
+        let s := if late.isEmpty then s else bump s "crib_late_kinder_moves" late.length
+        { s with prevNursery := now, lateCrib := s.lateCrib ++ late.filter (!s.lateCrib.contains ·) }
+      | none => s
     onNurseryWrite s rest
   | "X" :: "conf" :: l :: rest =>
     match labelKey l with
